@@ -8,6 +8,8 @@ package dastard
 // prepared (never started) bench source. No logic of dastard is changed here.
 
 import (
+	"time"
+
 	"gonum.org/v1/gonum/mat"
 )
 
@@ -102,4 +104,31 @@ func (ds *AnySource) VerifBreakExperimentStateFile() bool {
 	}
 	ds.writingState.experimentStateFile.Close()
 	return true
+}
+
+// VerifTickers are stand-ins for the three one-second / ten-second tickers of a source: the harness decides
+// when a tick is due, so that "the periodic flush fires at this block" becomes a scripted input.
+type VerifTickers struct {
+	ext, drop, nw chan time.Time
+}
+
+// VerifScriptTickers replaces the external-trigger, data-drop and number-written tickers of a prepared source.
+func (ds *AnySource) VerifScriptTickers() *VerifTickers {
+	t := &VerifTickers{ext: make(chan time.Time, 1), drop: make(chan time.Time, 1), nw: make(chan time.Time, 1)}
+	ds.writingState.externalTriggerTicker.Stop()
+	ds.writingState.dataDropTicker.Stop()
+	ds.numberWrittenTicker.Stop()
+	ds.writingState.externalTriggerTicker = &time.Ticker{C: t.ext}
+	ds.writingState.dataDropTicker = &time.Ticker{C: t.drop}
+	ds.numberWrittenTicker = &time.Ticker{C: t.nw}
+	return t
+}
+
+// Tick makes the named ticker ("ext", "drop", "nw") due for the next block (at most one pending tick each).
+func (t *VerifTickers) Tick(which string) {
+	c := map[string]chan time.Time{"ext": t.ext, "drop": t.drop, "nw": t.nw}[which]
+	select {
+	case c <- time.Now():
+	default:
+	}
 }
